@@ -70,9 +70,34 @@ func (s *JSONFileStorage) Stop() error {
 	if err != nil {
 		return fmt.Errorf("failed to marshal json storage: %w", err)
 	}
-	err = os.WriteFile(s.filename, data, 0o0644) //nolint:gosec // no secrets
-	if err != nil {
-		return fmt.Errorf("failed to write json storage to %s: %w", s.filename, err)
+
+	// Write to a temporary file in the same directory and then rename it over
+	// the state file, so that a crash while writing never leaves a partially
+	// written state file behind.
+	tmpFilename := s.filename + ".tmp"
+	if err := writeFileSynced(tmpFilename, data); err != nil {
+		_ = os.Remove(tmpFilename)
+		return fmt.Errorf("failed to write json storage to %s: %w", tmpFilename, err)
+	}
+	if err := os.Rename(tmpFilename, s.filename); err != nil {
+		_ = os.Remove(tmpFilename)
+		return fmt.Errorf("failed to move json storage to %s: %w", s.filename, err)
 	}
 	return nil
+}
+
+func writeFileSynced(filename string, data []byte) error {
+	f, err := os.OpenFile(filename, os.O_WRONLY|os.O_CREATE|os.O_TRUNC, 0o0644) //nolint:gosec // no secrets
+	if err != nil {
+		return err
+	}
+	if _, err := f.Write(data); err != nil {
+		_ = f.Close()
+		return err
+	}
+	if err := f.Sync(); err != nil {
+		_ = f.Close()
+		return err
+	}
+	return f.Close()
 }
